@@ -96,7 +96,9 @@ def run(job):
                 ta = rng.choice([Decimal("1.1"), Decimal("0.0073"), Fraction(7, 3),
                                  "131.5", 0.85, Decimal("151.237")])
                 specs.append((c, ta, um))
-            conv.update(v, specs)
+            # the term currency of a spec may also be given as ISO code
+            conv.update(v, [(c.symbol if rng.random() < 0.4 else c, ta, um)
+                            for c, ta, um in specs])
             cv = canon(v)
             kind_type = type(cv)
             for c, ta, um in specs:
